@@ -22,3 +22,7 @@ run C05 urllib3/poolmanager.py 's/        kw\["assert_same_host"\] = False\n    
 run C17 urllib3/_collections.py 's/\bevicted_item\b/evicted/g' "rename local in RecentlyUsedContainer.__setitem__"
 run C20 urllib3/fields.py 's/# percent encode/# percent-encode/' "comment edit"
 run C09 urllib3/util/proxy.py 's/# Otherwise always use a tunnel./# default: tunnel/' "comment edit in connection_requires_http_tunnel"
+# refactorings against the contracts added in the last stretch (all observed exit 0 on 2026-09-29)
+run C11 urllib3/connection.py 's/chunks_and_cl/cc_/g' "rename local in HTTPConnection.request"
+run C07 urllib3/connection.py 's/\bnormalized\b/norm_/g' "rename local in _ssl_wrap_socket_and_match_hostname"
+run C02 urllib3/connectionpool.py 's/conn = self.pool.get(block=self.block, timeout=timeout)/conn = self.pool.get(timeout=timeout, block=self.block)/' "reorder keyword arguments in _get_conn"
